@@ -279,13 +279,23 @@ def analyse_skeleton(I: Interp, pattern: Any, root_role: str = "instr") -> List[
                 continue
             kids = [(f"c{i}", c.regex, role_kind(c.role)) for i, c in enumerate(n.children) if c.regex is not None]
             counts: Dict[str, int] = {k[0]: 0 for k in kids}
+            lit_run = ""
             for u in flatten(n.tmpl):
+                if isinstance(u, str) and not isinstance(u, (Hole, Join)):
+                    lit_run += u
+                    continue
                 if isinstance(u, Hole) and u.tag in counts:
                     counts[u.tag] += 1
+                elif isinstance(u, Hole) and u.base is not None and u.xform == ("[1:]",) and u.base.tag in counts and \
+                        lit_run.endswith("-(?:0x)?"):
+                    # '-' (?:0x)? child[1:] on the path where the child's text starts with '-': the child verbatim, with the
+                    # optional 0x slipped in behind its sign
+                    counts[u.base.tag] += 1
                 elif isinstance(u, Join):
                     for h in u.elem.holes():
                         if h.tag in counts:
                             counts[h.tag] += 1
+                lit_run = ""
             n.embed_counts = counts  # type: ignore[attr-defined]
             eq: Dict[str, set] = {}
             for t1, r1, _ in kids:
